@@ -26,11 +26,13 @@ pub fn script_len(r: &RunResult) -> u64 {
 pub fn write_fault(rng: &mut Rng, fd: i32, nwrites: u64) -> Item {
     let n = if nwrites == 0 { 0 } else { rng.below(nwrites) };
     let e = *rng.pick(WRITE_ERRNOS);
-    let act = match rng.below(8) {
-        0..=2 => Act::Err(e),
-        3..=5 => Act::PErr(e),
-        6 => Act::Part(1 + rng.below(6), e),
-        _ => Act::PPart(1 + rng.below(6), e),
+    let act = match rng.below(17) {
+        0..=5 => Act::Err(e),
+        6..=11 => Act::PErr(e),
+        12 | 13 => Act::Part(1 + rng.below(6), e),
+        14 | 15 => Act::PPart(1 + rng.below(6), e),
+        // the device takes nothing and reports no error (std: WriteZero)
+        _ => Act::Zero,
     };
     Item::Write { fd, n, act }
 }
